@@ -711,4 +711,33 @@ MON_SUB (sub_members, "member_sequences", 10000, 600000)
            "subnormal, unit, mixed scale, zero) from a seed (6/8 random 32/64-bit, 1/8 from 13 extreme seeds) or an injected extreme state (1/8: states whose successor gives nextf its "
            "minimum / maximum, all-ones, zero, ...), interleaved with an unrelated generator; then a same-seed twin built in differently pre-filled storage replays the calls alone");
 
+// ---- drand48 / lrand48 on the static state BEFORE anything has seeded it (all words zero): one observation per process, taken
+// during static initialisation - every other sub-check seeds first, so this state is unreachable from them (seeded change C18-7)
+namespace
+{
+struct NeverSeeded
+{
+    double d;
+    long   l;
+    NeverSeeded () { d = IM::drand48 (); l = IM::lrand48 (); }
+};
+static const NeverSeeded g_never_seeded;
+static void
+sub_never_seeded (Ctx& c, uint64_t idx)
+{
+    unsigned short st[3] = {0, 0, 0};
+    double         e = ::erand48 (st);
+    long           n = ::nrand48 (st);
+    c.eval (2);
+    c.cls ("static_state_never_seeded");
+    c.nontrivial (idx + 1);
+    if (g_never_seeded.d != e)
+        c.fail ("drand48.never_seeded_static_state", idx, [&] { return Obj ().kv ("imath_first_drand48", g_never_seeded.d).kv ("erand48_on_zero_state", e).str (); });
+    if (g_never_seeded.l != n)
+        c.fail ("lrand48.after_first_drand48_on_never_seeded_state", idx, [&] { return Obj ().kv ("imath", (int64_t) g_never_seeded.l).kv ("posix_nrand48", (int64_t) n).str (); });
+}
+} // namespace
+MON_SUB_IDX (sub_never_seeded, "never_seeded_static_state", 1, 1).req ({"static_state_never_seeded"}).noscale ()
+    .over ("the first drand48() and the following lrand48() of the process, taken during static initialisation before any srand48: equal to POSIX erand48 / nrand48 on the all-zero state");
+
 MON_MAIN ("c18_random")
